@@ -19,6 +19,8 @@ var table = map[string]struct {
 	"C01": {"model_checking", checks.C01},
 	"C02": {"model_checking", checks.C02},
 	"C03": {"model_checking", checks.C03},
+	"C06": {"model_checking", checks.C06},
+	"C10": {"model_checking", checks.C10},
 }
 
 func main() {
